@@ -377,6 +377,15 @@ pub fn format_function_args(
                 && (ctx.should_omit_string_parens() || ctx.should_omit_table_parens())
                 && arguments.len() == 1
                 && !matches!(call_next_node, FunctionCallNextNode::ObscureWithoutParens)
+                // Only the comments after `)` are carried over below: any other comment attached to the
+                // parentheses would be lost together with them
+                && !parentheses
+                    .tokens()
+                    .0
+                    .leading_trivia()
+                    .chain(parentheses.tokens().0.trailing_trivia())
+                    .chain(parentheses.tokens().1.leading_trivia())
+                    .any(trivia_util::trivia_is_comment)
             {
                 let argument = arguments.iter().next().unwrap();
 
